@@ -574,3 +574,31 @@ def validate_groups(recs, prop, res, nshards=16, timeout=1800):
             res.violation(c, rec, {"reference_run": {k: first.get(k) for k in
                                    ("id", "opt", "wt", "num", "den", "solved", "routes", "weights", "obj", "mode", "ign", "escale")}})
     return verdicts
+
+
+def euler_universe(n, maxe, l, cap, scheme="plain", parts=16):
+    """Eulerian s-t multigraphs (C14) enumerated by Gen_Euler.tla; cached like universe()."""
+    os.makedirs(UNIV, exist_ok=True)
+    h = spec_hash("Graphs.tla", "Routes.tla", "Problems.tla", "Universe.tla", "Gen_Euler.tla")
+    path = os.path.join(UNIV, f"euler_n{n}_e{maxe}_l{l}_c{cap}_{scheme}_{h}.ndjson")
+    if os.path.exists(path):
+        return read_ndjson(path)
+    sc = scratch_dir()
+    parts = parts if n >= 4 else 1
+    outs = [os.path.join(sc, f"e{p}.ndjson") for p in range(parts)]
+
+    def one(p):
+        env = {"GEN_N": str(n), "GEN_MAXE": str(maxe), "GEN_L": str(l), "GEN_CAP": str(cap), "GEN_SCHEME": scheme,
+               "GEN_PART": str(p), "GEN_PARTS": str(parts), "OUT_FILE": outs[p]}
+        return run_tlc("Gen_Euler", "Gen.cfg", env=env, timeout=3000, scratch=sc)
+    with ThreadPoolExecutor(max_workers=16) as ex:
+        rs = list(ex.map(one, range(parts)))
+    recs = []
+    for p, r in enumerate(rs):
+        if not tlc_ok(r) or not os.path.exists(outs[p]):
+            raise Machinery("euler universe generation failed: " + r["stdout"][-1500:])
+        recs += read_ndjson(outs[p])
+    recs.sort(key=lambda r: json.dumps(r, sort_keys=True))
+    write_ndjson(path, recs)
+    shutil.rmtree(sc, ignore_errors=True)
+    return recs
